@@ -196,6 +196,31 @@ class ScrapliFileHandler(FileHandler_):
         self._record_buf = None
         self._record_msg_buf = b""
 
+    def close(self) -> None:
+        """
+        Override standard library FileHandler.close to emit any still buffered read message
+
+        Args:
+            N/A
+
+        Returns:
+            None
+
+        Raises:
+            N/A
+
+        """
+        self.acquire()
+        try:
+            if self._record_buf:
+                # nothing else is going to flush the buffered read message(s) -- without this the
+                # last reads of a session would never make it to the log file
+                self.emit_buffered()
+        finally:
+            self.release()
+
+        super().close()
+
     def emit(self, record: LogRecord_) -> None:
         """
         Override standard library FileHandler.emit to "buffer" subsequent read messages
